@@ -593,4 +593,94 @@ theorem reconcileRevV_released (sys sys' : Sys) (r : Rev) (e : Env) (w : World) 
   · simp at h
   · simp at h
 
+/-! ### the desired state as a string -/
+
+theorem GInv.reconcileS {l₀ : List Obj} {A : Nat → Prop} {P : Obj → Prop} {sys : Sys} (hi : GInv l₀ A P sys.store)
+    (p : Parent) (objs : List Desired) (ds : String) (e : Env) (w : World)
+    (hst : StaleOK sys.store w.v (pick objs e.vorder))
+    (hA : ds = activeState → A p.uid) (hP : ∀ a, w.Puts a → P a) :
+    GInv l₀ A P (reconcileState sys p objs ds e w).1.store := by
+  unfold reconcileState
+  by_cases h1 : ds = inactiveState
+  · rw [if_pos h1]
+    exact hi.reconcileV ⟨p, false, objs⟩ e w hst (fun h => by cases h) hP
+  · rw [if_neg h1]
+    by_cases h2 : ds = activeState
+    · rw [if_pos h2]
+      exact hi.reconcileV ⟨p, true, objs⟩ e w hst (fun _ => hA h2) hP
+    · rw [if_neg h2]
+      split
+      · exact hi
+      · rw [establishAndRecordV_store]
+        exact hi.establishV _ _ _ _ _ _ _ _ _ hst (fun h => by cases h)
+          (fun a h => hP a (h.elim Or.inl fun h => Or.inr (Or.inl h)))
+
+theorem releaseV_log (rejects : Obj → Bool) (fault : Fault) (ri : RInterf) (p : Parent) (ran : Nat → Bool)
+    (s : Store) (refs : List Ref) (order : List Nat) :
+    LogExt false s.log (releaseV rejects fault ri p ran s refs order).1.log :=
+  releaseAllV_log rejects fault ri p ran s (pick refs order)
+
+/-- a revision reconciled as NOT active issues updates only, whatever path the reconciler takes -/
+theorem reconcileRevV_log_inactive (sys : Sys) (r : Rev) (e : Env) (w : World) (hw : WF sys.store)
+    (hr : r.active = false) : LogExt false sys.store.log (reconcileRevV sys r e w).1.store.log := by
+  obtain ⟨p, active, objs⟩ := r
+  simp only at hr
+  subst hr
+  unfold reconcileRevV
+  simp only [Bool.false_eq_true, if_false]
+  split
+  · rename_i listed _
+    have h1 := releaseV_log e.rejects e.fault w.r p e.ran sys.store listed e.rorder
+    split <;> rename_i s1 heq <;> (try rename_i x) <;> (rw [heq] at h1; exact h1)
+  · have h1 := releaseV_log e.rejects e.fault w.r p e.ran sys.store (sys.refs p.uid) e.rorder
+    have hw1 := (releaseV_inv e.rejects e.fault w.r p e.ran sys.store (sys.refs p.uid) e.rorder hw).wf
+    split <;> rename_i s1 heq <;> (try rename_i x) <;> (rw [heq] at h1 hw1; simp only at h1 hw1)
+    · split
+      · exact h1
+      · rw [establishAndRecordV_store]
+        exact h1.trans (establishV_log e.rejects e.fault w.v w.e p false s1 objs e.vorder e.eorder hw1)
+    · exact h1
+    · exact h1
+
+theorem reconcileState_log (sys : Sys) (p : Parent) (objs : List Desired) (ds : String) (e : Env) (w : World)
+    (hw : WF sys.store) (hds : ds ≠ activeState) :
+    LogExt false sys.store.log (reconcileState sys p objs ds e w).1.store.log := by
+  unfold reconcileState
+  by_cases hi : ds = inactiveState
+  · rw [if_pos hi]
+    exact reconcileRevV_log_inactive sys ⟨p, false, objs⟩ e w hw rfl
+  · rw [if_neg hi, if_neg hds]
+    split
+    · exact LogExt.refl _ _
+    · rw [establishAndRecordV_store]
+      exact establishV_log e.rejects e.fault w.v w.e p false sys.store objs e.vorder e.eorder hw
+
+/-- the revisions that some step of the history reconciles with desired state exactly `Active` -/
+def ActiveInS (h : List SStep) (u : Nat) : Prop := ∃ x ∈ h, x.state = activeState ∧ x.parent.uid = u
+
+def PutsInS (h : List SStep) (a : Obj) : Prop := ∃ x ∈ h, Act.put a ∈ x.before ∨ x.w.Puts a
+
+def WorldOKS : Sys → List SStep → Prop
+  | _, [] => True
+  | sys, x :: rest =>
+    StaleOK (applyActs sys.store x.before) x.w.v (pick x.objs x.env.vorder) ∧
+    WorldOKS (reconcileState ⟨applyActs sys.store x.before, sys.refs⟩ x.parent x.objs x.state x.env x.w).1 rest
+
+theorem runHistoryS_ginv (l₀ : List Obj) (A : Nat → Prop) (P : Obj → Prop) (h : List SStep) (sys : Sys)
+    (hok : WorldOKS sys h)
+    (hA : ∀ u, ActiveInS h u → A u) (hP : ∀ a, PutsInS h a → P a) (hi : GInv l₀ A P sys.store) :
+    GInv l₀ A P (runHistoryS sys h).store := by
+  induction h generalizing sys with
+  | nil => exact hi
+  | cons x rest ih =>
+    unfold runHistoryS
+    obtain ⟨hok1, hok2⟩ := hok
+    have h0 : GInv l₀ A P (⟨applyActs sys.store x.before, sys.refs⟩ : Sys).store :=
+      hi.acts x.before fun o ho => hP o ⟨x, List.mem_cons_self, Or.inl ho⟩
+    have h1 := h0.reconcileS x.parent x.objs x.state x.env x.w hok1
+      (fun ha => hA _ ⟨x, List.mem_cons_self, ha, rfl⟩)
+      (fun a ha => hP a ⟨x, List.mem_cons_self, Or.inr ha⟩)
+    exact ih _ hok2 (fun u ⟨y, hy, hp⟩ => hA u ⟨y, List.mem_cons_of_mem _ hy, hp⟩)
+      (fun a ⟨y, hy, hp⟩ => hP a ⟨y, List.mem_cons_of_mem _ hy, hp⟩) h1
+
 end Xp.C16
